@@ -898,6 +898,12 @@ func (env *SpecEnv) evalCall(n *ast.CallExpr) (Val, types.Type, error) {
 			return Val{}, nil, err
 		}
 		return Val{T: "(fp.isNaN " + a.T + ")"}, tBool, nil
+	case "isInf":
+		a, _, err := argv(0)
+		if err != nil {
+			return Val{}, nil, err
+		}
+		return Val{T: "(fp.isInfinite " + a.T + ")"}, tBool, nil
 	case "substr":
 		// substr(a, s, k): string value a is s[k : k+len(a)] (same backing bytes)
 		a, _, err := argv(0)
